@@ -13,11 +13,14 @@
      header view     headers_enc_eq_dec members added by add_header are what headers() returns
      AAD / KDF info  aad_enc_eq_dec, kdf_info_enc_eq_dec
      wire format     c04_compact_segments_rt
+   c04_single_rt_kw_rsa, c04_single_rt_dir, c04_single_rt_gcmkw and c04_single_rt_ecdh_direct are END-TO-END (object level, one recipient,
+   every serialization / enc / zip): there the glue is done in Coq.
    c04_compact_rt / c04_flat_rt / c04_general_rt are the message-layer theorem
    instantiated per serialization; their premise "the recipients yield the CEK of
-   the encryption" is discharged per family by the key-layer theorems; the
-   mechanical gluing of the two for every family (7 case splits through
-   pre_loop / post_loop) is not carried out in Coq: *_partial in that sense. *)
+   the encryption" is what the key-layer theorems establish per family; the
+   mechanical gluing for the remaining modes (PBES2, ECDH-ES+A*KW, ECDH-1PU+A*KW:
+   header members added, delayed wrapping) and for several recipients is not carried
+   out in Coq: *_partial in that sense. *)
 From Coq Require Import Lia.
 From Model Require Import JweBase JweCrypto JweMsg JweCases C02Examples.
 From Gen Require Import Tables.
@@ -67,6 +70,104 @@ Theorem c04_general_rt_partial : forall O, contracts O -> forall g o d x e encv,
   j_unprot (obj_of o x) = e_unprot o /\ j_aad (obj_of o x) = e_aad o /\
   length (j_recips (obj_of o x)) = length (x_recips x).
 Proof. exact general_rt_partial. Qed.
+
+(* ---- END-TO-END for one recipient, every serialization, enc and zip, no key-layer premise ---- *)
+(* key wrapping (A128KW/A192KW/A256KW) and key encryption (RSA1_5, RSA-OAEP, RSA-OAEP-256) *)
+Theorem c04_single_rt_kw_rsa : forall O, contracts O -> forall g o d x r,
+  e_recips o = [r] -> perform_encrypt O g o d = Ok x ->
+  (forall hs, o_check_header O (PDict hs) false = Ok tt -> o_check_header O (PDict hs) true = Ok tt) ->
+  (forall hs algv a,
+     headers (e_ser o) (e_prot o) (e_unprot o) (r_header r) = Ok hs -> hitem hs "alg" = Ok algv ->
+     get_alg g algv = Ok a ->
+     ea_direct a = false /\ is_agreement a = false /\
+     ((fam_is (ea_family a) "RSA" = true /\ k_priv (r_key r) = true) \/
+      (fam_is (ea_family a) "RSA" = false /\ fam_is (ea_family a) "AESKW" = true))) ->
+  (forall encv e, hitem (e_prot o) "enc" = Ok encv -> get_enc g encv = Ok e ->
+     lenN (d_civ d) * 8 = ee_iv_size e /\ lenN (d_cek d) * 8 = ee_cek_size e) ->
+  perform_decrypt O g (obj_of o x) = Ok (e_plain o).
+Proof. exact single_rt_kw_rsa. Qed.
+
+(* Direct Encryption (dir) *)
+Theorem c04_single_rt_dir : forall O, contracts O -> forall g o d x r,
+  e_recips o = [r] -> perform_encrypt O g o d = Ok x ->
+  (forall hs, o_check_header O (PDict hs) false = Ok tt -> o_check_header O (PDict hs) true = Ok tt) ->
+  (forall hs algv a,
+     headers (e_ser o) (e_prot o) (e_unprot o) (r_header r) = Ok hs -> hitem hs "alg" = Ok algv ->
+     get_alg g algv = Ok a -> ea_direct a = true /\ is_agreement a = false) ->
+  (forall encv e, hitem (e_prot o) "enc" = Ok encv -> get_enc g encv = Ok e ->
+     lenN (d_civ d) * 8 = ee_iv_size e) ->
+  perform_decrypt O g (obj_of o x) = Ok (e_plain o).
+Proof. exact single_rt_dir. Qed.
+
+(* AES-GCM key wrap (A128GCMKW/A192GCMKW/A256GCMKW): the "iv" and "tag" members that encryption adds
+   (to the protected header in compact, to the per-recipient header in JSON) are the ones decryption reads *)
+Theorem c04_single_rt_gcmkw : forall O, contracts O -> forall g o d x r,
+  e_recips o = [r] -> perform_encrypt O g o d = Ok x ->
+  wf (e_prot o) -> hdr_wf (e_unprot o) -> hdr_wf (r_header r) -> (e_ser o = Compact -> r_header r = PNone) ->
+  (forall r' hs', x_recips x = [r'] -> headers (e_ser o) (x_prot x) (e_unprot o) (r_header r') = Ok hs' ->
+                  o_check_header O (PDict hs') true = Ok tt) ->
+  (exists r' hs', x_recips x = [r'] /\ headers (e_ser o) (x_prot x) (e_unprot o) (r_header r') = Ok hs') ->
+  (forall hs algv a,
+     headers (e_ser o) (e_prot o) (e_unprot o) (r_header r) = Ok hs -> hitem hs "alg" = Ok algv ->
+     get_alg g algv = Ok a ->
+     ea_direct a = false /\ is_agreement a = false /\
+     fam_is (ea_family a) "RSA" = false /\ fam_is (ea_family a) "AESKW" = false /\
+     fam_is (ea_family a) "AESGCMKW" = true) ->
+  (forall k iv a m c t, o_gcm_enc O k iv a m = Ok (c, t) -> bytes_ok t = true) ->
+  bytes_ok (match d_rec d with d0 :: _ => d_kwiv d0 | [] => [] end) = true ->
+  (forall encv e, hitem (e_prot o) "enc" = Ok encv -> get_enc g encv = Ok e ->
+     lenN (d_civ d) * 8 = ee_iv_size e /\ lenN (d_cek d) * 8 = ee_cek_size e) ->
+  perform_decrypt O g (obj_of o x) = Ok (e_plain o).
+Proof. exact single_rt_gcmkw. Qed.
+
+(* Direct Key Agreement (ECDH-ES and ECDH-1PU, table rows with ea_direct and an agreement family):
+   the epk that prepare_ephemeral_key puts in the header is imported by the recipient, ECDH is symmetric,
+   both sides feed the KDF the same Z and other-info, and the encrypted key is empty *)
+Theorem c04_single_rt_ecdh_direct : forall O, contracts O -> forall g o d x r,
+  e_recips o = [r] -> perform_encrypt O g o d = Ok x ->
+  wf (e_prot o) -> hdr_wf (e_unprot o) -> hdr_wf (r_header r) -> (e_ser o = Compact -> r_header r = PNone) ->
+  (forall hs', o_check_header O (PDict hs') true = Ok tt) ->
+  (forall hs algv a,
+     headers (e_ser o) (e_prot o) (e_unprot o) (r_header r) = Ok hs -> hitem hs "alg" = Ok algv ->
+     get_alg g algv = Ok a -> ea_direct a = true /\ is_agreement a = true) ->
+  (forall eph epkd, r_eph r = Some (eph, epkd) ->
+     o_import O (k_kty (r_key r)) epkd = Ok (pubk eph) /\ k_kty eph = k_kty (r_key r)) ->
+  k_priv (r_key r) = true ->
+  (forall sk, r_sender r = Some sk -> k_kty sk = k_kty (r_key r)) ->
+  (forall encv e, hitem (e_prot o) "enc" = Ok encv -> get_enc g encv = Ok e ->
+     lenN (d_civ d) * 8 = ee_iv_size e) ->
+  perform_decrypt O g (obj_of o x) = Ok (e_plain o).
+Proof. exact single_rt_ecdh_direct. Qed.
+
+(* two successive add_header calls: both members visible, every other member untouched *)
+Theorem c04_add_header_twice : forall s prot unprot r k1 v1 k2 v2 p1 r1 p2 r2 hs hs',
+  wf prot -> hdr_wf unprot -> hdr_wf (r_header r) -> (s = Compact -> r_header r = PNone) ->
+  k1 <> k2 ->
+  add_header s prot r k1 v1 = Ok (p1, r1) ->
+  add_header s p1 r1 k2 v2 = Ok (p2, r2) ->
+  headers s prot unprot (r_header r) = Ok hs ->
+  headers s p2 unprot (r_header r2) = Ok hs' ->
+  dget hs' k1 = Some v1 /\ dget hs' k2 = Some v2 /\
+  (forall k, k1 <> k -> k2 <> k -> dget hs' k = dget hs k) /\
+  r_key r2 = r_key r /\ r_ek r2 = r_ek r.
+Proof. exact add_header2. Qed.
+
+(* these theorems are not vacuous: the recorded joserfc encryptions ex_dir_cbc_enc (compact, dir),
+   ex_flat_kw_gcm_enc (flattened, A128KW, aad) and ex_es_gcm_enc (compact, ECDH-ES) are instances whose
+   encryption succeeds in the model *)
+Example c04_single_rt_nonvacuous :
+  match ex_dir_cbc_enc, ex_flat_kw_gcm_enc, ex_es_gcm_enc with
+  | CEncCompact t1 g1 o1 d1 _, CEncJson t2 g2 o2 d2 _, CEncCompact t3 g3 o3 d3 _ =>
+      match perform_encrypt (table_oracles t1) g1 o1 d1, perform_encrypt (table_oracles t2) g2 o2 d2,
+            perform_encrypt (table_oracles t3) g3 o3 d3 with
+      | Ok x1, Ok x2, Ok x3 => (length (e_recips o1) =? 1)%nat && (length (e_recips o2) =? 1)%nat
+                        && (length (e_recips o3) =? 1)%nat
+                        && (8 * lenN (x_cek x1) =? 256) && (8 * lenN (x_cek x2) =? 128) && (8 * lenN (x_cek x3) =? 128)
+      | _, _, _ => false
+      end
+  | _, _, _ => false
+  end = true.
+Proof. vm_compute. reflexivity. Qed.
 
 (* ---- content layer: every enc family, every plaintext (PKCS7 proved, not assumed) ---- *)
 Theorem c04_content_rt : forall O, contracts O -> forall e m cek iv aad ct tag,
@@ -223,6 +324,11 @@ Print Assumptions c04_message_rt.
 Print Assumptions c04_compact_rt_partial.
 Print Assumptions c04_flat_rt_partial.
 Print Assumptions c04_general_rt_partial.
+Print Assumptions c04_single_rt_kw_rsa.
+Print Assumptions c04_single_rt_dir.
+Print Assumptions c04_single_rt_gcmkw.
+Print Assumptions c04_single_rt_ecdh_direct.
+Print Assumptions c04_add_header_twice.
 Print Assumptions c04_content_rt.
 Print Assumptions c04_pkcs7_rt.
 Print Assumptions c04_key_rt_rsa.
